@@ -23,7 +23,8 @@ import (
 //   - every compiled and/or node is checked for consistency with the model (operands the
 //     model prices differently must be ordered by price); the first inconsistency switches
 //     the law off as well;
-//   - the law is only asserted after 300 consistent strictly-ordered pairs.
+//   - the law is only asserted after 300 consistent strictly-ordered pairs (the 312 calibration
+//     pairs count, so a saved case replayed on its own is judged by the law as well).
 // With the law off C16 still runs all its model-free laws; the evidence says which mode ran.
 
 type costModelState struct {
@@ -119,6 +120,7 @@ func (s *costModelState) calibrate() {
 							return
 						}
 						gotXFirst := run.DTree.Kids[0].Kind == m.KVar && run.DTree.Kids[0].Name == "x"
+						s.strict++ // a calibration pair is a consistent strictly-ordered pair like any other (312 of them)
 						if gotXFirst != (d < 0) {
 							s.valid = false
 							s.why = fmt.Sprintf("calibration: %s with cost(x) = cost(sibling)%+.0f (fast=%v, costs %v) compiled to %s", m.Render(tree), d, fast, costs, m.Render(run.DTree))
